@@ -17,6 +17,7 @@ from __future__ import annotations
 
 import asyncio
 import contextlib
+import math
 import selectors
 
 from tornado.ioloop import IOLoop
@@ -57,14 +58,25 @@ class _NoSleepSelector:
 
 class VLoop(asyncio.SelectorEventLoop):
     def __init__(self, start=START):
-        super().__init__(selectors.DefaultSelector())
         self._now = float(start)
+        super().__init__(selectors.DefaultSelector())
         self.allow_block = False
         self.auto_advance = False
         self._selector = _NoSleepSelector(self._selector, self)
 
     def time(self):
         return self._now
+
+    # asyncio fires timers with when < time() + _clock_resolution.  At epoch-scale virtual times the
+    # default 1e-9 is below one ulp, so a timer exactly at `now` would never fire; one ulp makes
+    # "when <= now" fire and nothing later.
+    @property
+    def _clock_resolution(self):
+        return math.ulp(self._now)
+
+    @_clock_resolution.setter
+    def _clock_resolution(self, value):
+        pass
 
     # ---- harness helpers
     def next_timer(self):
